@@ -2,6 +2,7 @@ package hap
 
 import (
 	"bytes"
+	"fmt"
 	"github.com/brutella/hc/crypto"
 	"github.com/brutella/hc/log"
 	"net"
@@ -91,21 +92,37 @@ func (p *plainRequest) accept(b []byte) error {
 		if bytes.HasSuffix(p.header, []byte("\n\n")) || bytes.HasSuffix(p.header, []byte("\n\r\n")) {
 			request, err := http.ReadRequest(bufio.NewReader(bytes.NewReader(p.header)))
 			if err != nil {
-				return err
+				return refusedRequest{http.StatusBadRequest, err.Error()}
 			}
 			if request.ContentLength < 0 {
-				return errors.New("request of unknown length")
+				return refusedRequest{http.StatusLengthRequired, "request of unknown length"}
 			}
 			p.header = nil
 			p.body = request.ContentLength
 			p.inBody = p.body > 0
 			p.complete = p.body == 0
 		} else if len(p.header) > http.DefaultMaxHeaderBytes {
-			return errors.New("request header too long")
+			return refusedRequest{http.StatusRequestHeaderFieldsTooLarge, "request header too long"}
 		}
 	}
 
 	return nil
+}
+
+// refusedRequest is the error of a plaintext request which cannot be handed on to the http server, because
+// its end cannot be found. The request is answered with the status before the connection is closed.
+type refusedRequest struct {
+	status int
+	reason string
+}
+
+func (r refusedRequest) Error() string {
+	return r.reason
+}
+
+// response returns the response which is sent for the refused request.
+func (r refusedRequest) response() []byte {
+	return []byte(fmt.Sprintf("HTTP/1.1 %d %s\r\nContent-Length: 0\r\nConnection: close\r\n\r\n", r.status, http.StatusText(r.status)))
 }
 
 // isInterimResponse returns true when b is the beginning of an interim response (status 1xx). The http
@@ -307,6 +324,10 @@ func (con *Connection) Read(b []byte) (int, error) {
 	if n > 0 {
 		if ferr := con.plain.accept(b[:n]); ferr != nil {
 			log.Debug.Println("Read failed:", ferr)
+			if refused, ok := ferr.(refusedRequest); ok {
+				// A request which the http server would have answered with an error gets an answer
+				con.connection.Write(refused.response())
+			}
 			con.connection.Close()
 			return 0, ferr
 		}
